@@ -25,7 +25,7 @@ Idxs == (0 - (MaxEnt + 1))..MaxEnt
 PairSrcs == {<<>>} \cup {<< <<k, <<v>>>> >> : k \in Keys, v \in Vals}
             \cup {<< <<k1, <<v1>>>>, <<k2, <<v2>>>> >> : k1 \in Keys, k2 \in Keys, v1 \in Vals, v2 \in Vals}
 ListSrcs == {<< <<k, vs>> >> : k \in Keys, vs \in ValLists}
-            \cup {<< <<k1, vs1>>, <<k2, vs2>> >> : k1 \in Keys, k2 \in Keys \ {k1}, vs1 \in ValLists, vs2 \in {<<>>} \cup {<<v>> : v \in Vals}}
+            \cup {s \in {<< <<k1, vs1>>, <<k2, vs2>> >> : k1 \in Keys, k2 \in Keys, vs1 \in ValLists, vs2 \in {<<>>} \cup {<<v>> : v \in Vals}} : s[1][1] # s[2][1]}
 SrcArgs == {[A0 EXCEPT !.src = s, !.form = "pairs"] : s \in PairSrcs}
            \cup {[A0 EXCEPT !.src = s, !.form = "dictlist"] : s \in ListSrcs}
 HdSrcArgs == SrcArgs \cup {[A0 EXCEPT !.src = s, !.form = "headers"] : s \in PairSrcs}
@@ -84,31 +84,31 @@ ReadLaws ==
          /\ R("lists", <<>>).v = [i \in 1..Len(obj) |-> <<R("keys", <<>>).v[i], R("listvalues", <<>>).v[i]>>]   \* zip(keys, listvalues) = lists
          /\ \A k \in Keys :
               /\ R("contains", k).v <=> k \in ToSet(R("keys", <<>>).v)
-              /\ R("getlist", k).v = <<>> <=> R("getitem", k) = KeyErr
-              /\ R("getlist", k).v # <<>> => /\ R("getitem", k) = RVal(R("getlist", k).v[1])
-                                             /\ R("get", k) = R("getitem", k)
+              /\ R("getlist", k).v = <<>> <=> R("getitem", k).tag = "exc"
+              /\ R("getlist", k).v # <<>> => /\ RetEq(R("getitem", k), RVal(R("getlist", k).v[1]))
+                                             /\ RetEq(R("get", k), R("getitem", k))
                                              /\ <<k, R("getlist", k).v[1]>> \in ToSet(R("items", <<>>).v)
-              /\ R("getlist", k).v = <<>> => R("get", k) = RNone /\ R("get_default", k) = RVal(Dflt)
+              /\ R("getlist", k).v = <<>> => RetEq(R("get", k), RNone) /\ RetEq(R("get_default", k), RVal(Dflt))
     [] Kind = "Headers" ->
          /\ R("len", <<>>).v = Len(R("items", <<>>).v)
          /\ \A k \in Keys :
               /\ R("getlist", k).v = HdVals(R("items", <<>>).v, k)
               /\ R("contains", k).v <=> R("getlist", k).v # <<>>
-              /\ R("contains", k).v <=> R("getitem", k) # KeyErr
-              /\ R("contains", k).v => R("get", k) = RVal(R("getlist", k).v[1])
+              /\ R("contains", k).v <=> R("getitem", k).tag # "exc"
+              /\ R("contains", k).v => RetEq(R("get", k), RVal(R("getlist", k).v[1]))
               /\ R("getlist", Upper(k)) = R("getlist", k) /\ R("getlist", Lower(k)) = R("getlist", k)
-         /\ \A i \in Idxs : IdxOK(i, Len(obj)) <=> RI("getitem_idx", i) # IndexErr
+         /\ \A i \in Idxs : IdxOK(i, Len(obj)) <=> RI("getitem_idx", i).tag # "exc"
     [] Kind = "HeaderSet" ->
          /\ R("len", <<>>).v = Len(R("iter", <<>>).v)
          /\ Cardinality(ToSet(R("as_set", <<>>).v)) = R("len", <<>>).v            \* unique up to case
          /\ \A k \in Keys :
               /\ R("contains", k).v <=> R("find", k).v >= 0
-              /\ R("contains", k).v <=> R("index", k) # IndexErr
+              /\ R("contains", k).v <=> R("index", k).tag # "exc"
               /\ R("contains", Upper(k)) = R("contains", k)
               /\ R("contains", k).v => Lower(R("iter", <<>>).v[R("find", k).v + 1]) = Lower(k)
 
 \* immutable variants: TypeError from every mutator
-ImmutableInv == Kind = "ImmutableMultiDict" /\ act.name \in MdMutators => act.ret = TypeErr
+ImmutableInv == Kind = "ImmutableMultiDict" /\ act.name \in MdMutators => RetEq(act.ret, TypeErr)
 
 \* documented post-conditions of the mutators, stated through reads of pre / post state
 GL(st, k) == Read(Kind, st, "getlist", [A0 EXCEPT !.k = k]).v
@@ -122,9 +122,9 @@ Post ==
          /\ n = "add" => GL(obj', a.k) = GL(obj, a.k) \o <<a.v>> /\ OthersKept(a.k)
          /\ n = "setlist" => GL(obj', a.k) = a.vs /\ OthersKept(a.k)
          /\ n \in {"delitem", "remove", "poplist", "pop"} => GL(obj', a.k) = <<>> /\ OthersKept(a.k)
-         /\ n = "poplist" => act'.ret = RList(GL(obj, a.k))
-         /\ n = "pop" /\ ok /\ GL(obj, a.k) # <<>> => act'.ret = RVal(GL(obj, a.k)[1])
-         /\ n = "setdefault" /\ ok => GL(obj', a.k) = (IF GL(obj, a.k) = <<>> THEN <<a.v>> ELSE GL(obj, a.k)) /\ act'.ret = RVal(GL(obj', a.k)[1])
+         /\ n = "poplist" => RetEq(act'.ret, RList(GL(obj, a.k)))
+         /\ n = "pop" /\ ok /\ GL(obj, a.k) # <<>> => RetEq(act'.ret, RVal(GL(obj, a.k)[1]))
+         /\ n = "setdefault" /\ ok => GL(obj', a.k) = (IF GL(obj, a.k) = <<>> THEN <<a.v>> ELSE GL(obj, a.k)) /\ RetEq(act'.ret, RVal(GL(obj', a.k)[1]))
          /\ n = "clear" => \A k \in Keys : GL(obj', k) = <<>>
          /\ n \in {"update", "extend"} /\ Kind = "MultiDict" =>       \* "update() extends rather than replaces"
               \A k \in Keys : GL(obj', k) = GL(obj, k) \o GL(MdFromPairs(Flatten(a.src)), k)
